@@ -18,8 +18,12 @@ Tie        : correspondence `gc_faults`: tables with 1-4 retained snapshots (sha
              short read) at spread / block-boundary offsets.  What a damaged file or faulty stream amounts to (records
              decoded before the failure, exception class) is decided by an independent record-by-record decode; the model
              gets the content class CPartialAvro (decoded, caught) resp. the fault FRaise / FRaiseX, real vs model.  The pointer plane: which
-             version a collection works from is Model/GCPointer.v; BYTE damage of the current metadata file {missing, garbage,
-             empty, truncated} and faults at every call of refresh() / the hint check are judged by the oracle only (what
+             metadata FILE a collection works from is Model/GCPointer.v (files identified by name, compared by content; the pointer
+             resolved twice; collect_pointer = that resolution + Model/GCDoc.v collect_doc on the resolved document:
+             C07_pointer_run_safe_partial; the residual lost-pointer window is C07_pointer_run_safe_refuted), tied by `gc_pointer`:
+             a fault at every call of both resolutions (pointer exists / read, exists and read_json of the metadata file; raise
+             kinds also failing every time) on tables with a dead writer's unpublished leftover, compared on the file worked from /
+             abort; BYTE damage of the current metadata file {missing, garbage, empty, truncated} is judged by the oracle only (what
              json.loads makes of bytes is not modelled); what the decoder makes of the DOCUMENT is Model/Doc.v / GCDoc.v (below);
              a stale hint is recorded, not judged.
              Every library call runs under a time limit (SIGALRM) and a worker memory limit: a hang is a `hang:` violation.
@@ -33,13 +37,19 @@ Documents  : STRUCTURED damage (harness/lib/docdamage.py): the file stays well-f
              Model/GCDoc.v puts the collector on top: C07_metadata_document_fail_closed (every document: refused = nothing
              deleted, or the collection worked from the manifest lists of ALL its snapshots and is safe for them),
              C07_lost_section_refused (snapshots section missing / null / not a list / a snapshot without a string manifest
-             list is never "a table without snapshots"), C07_readable_records_complete, C07_structured_damage_aborts.
+             list is never "a table without snapshots"), C07_dangling_current_refused / C07_run_protects_current_snapshot (a
+             metadata file whose current_snapshot_id names none of the snapshots it lists -- `snapshots: []`, the current snapshot
+             gone from the list -- is refused by collect(); a run kept the current snapshot's list), C07_json_section_lost_aborts (a
+             legacy JSON list / manifest without its `manifests` / `files` section, or with anything but a list there, is not an
+             empty one), C07_readable_records_complete, C07_structured_damage_aborts.
              Tie: `doc_decode` (the regenerated shape vs the library's own decoder on every damaged metadata document: refused,
              or the same manifest lists), `doc_runs` (every structured-damage run vs collect_doc / gc_run with the document's
              content class: raise with nothing deleted and abort phase, or deleted set, keep sets, call trace).
              Oracle (property text): the collection raises -- any exception -- having deleted nothing, or every reachable and live
-             file is still in its keep sets.  Emptied in place (same type; zero records) = a well-formed document that says
-             something else: recorded, not judged; likewise a legacy JSON document without its `manifests` / `files` section.
+             file is still in its keep sets.  Emptied in place (same type; zero records), an array element gone = a well-formed
+             document that says something else: recorded, not judged -- unless the metadata document contradicts ITSELF afterwards
+             (its current_snapshot_id names none of the snapshots it lists: docdamage.dangling_current): judged.  A legacy JSON
+             document without its `manifests` / `files` section (`{}` included) is not a list / manifest: judged.
 Oracle /   : implementation only (independent reader): an unparseable reachable file / failing stream -> the collection
 search       raises, or its keep sets (observed at _gc_prefix) still hold every reachable and live file; damage that still
              parses to different records is recorded, not judged; whenever collect raised -> GarbageCollectionAborted and the
@@ -61,48 +71,75 @@ from harness.lib import coqbuild, docdamage, gcsim
 from harness.props import c05 as h5
 
 LEVEL = "proof"
-THEOREMS = ["C07_fail_closed", "C07_damage", "C07_transient", "C07_partial_decode", "C07_pointer_consistent", "C07_pointer_raise_aborts", "C07_marker_keep",
-            "C07_metadata_document_fail_closed", "C07_lost_section_refused", "C07_readable_records_complete", "C07_structured_damage_aborts",
+THEOREMS = ["C07_fail_closed", "C07_damage", "C07_transient", "C07_partial_decode",
+            "C07_pointer_run_safe_partial", "C07_pointer_run_safe_refuted", "C07_pointer_lost_hint_partial", "C07_pointer_raise_aborts",
+            "C07_pointer_unreadable_never_used", "C07_marker_keep", "C07_registered_marker_fallback_covers",
+            "C07_metadata_document_fail_closed", "C07_lost_section_refused", "C07_dangling_current_refused", "C07_run_protects_current_snapshot",
+            "C07_json_section_lost_aborts", "C07_readable_records_complete", "C07_structured_damage_aborts",
             "C07_list_record_without_path_refused"]
 REQ = gcsim.REQ
 TIMEOUT_MS = h5.TIMEOUT_MS
 
 MANIFEST_ENTRY = {
-    "level_text": "C07_metadata_document_fail_closed / C07_lost_section_refused / C07_readable_records_complete / "
-                  "C07_structured_damage_aborts (every metadata document, every list of decoded list / manifest records: a document "
-                  "that lost a section, a key or a string the reachable set is computed from is refused -- raise, nothing deleted -- "
-                  "and a collection that runs worked from ALL the snapshots / entries the document carries) proved over the readers' "
-                  "demands REGENERATED from _dict_to_metadata / read_manifest(_list)_file (Gen/GenDoc.v), tied by running every "
-                  "structured damage (drop / null / retype / empty at every key path of the metadata JSON, of Avro and legacy-JSON "
-                  "lists and manifests) through the library and the model; "
+    "level_text": "C07_metadata_document_fail_closed / C07_lost_section_refused / C07_dangling_current_refused / "
+                  "C07_run_protects_current_snapshot / C07_json_section_lost_aborts / C07_readable_records_complete / "
+                  "C07_structured_damage_aborts (every metadata document, every legacy JSON list / manifest document, every list of "
+                  "decoded list / manifest records: a document that lost a section, a key or a string the reachable set is computed "
+                  "from -- including a legacy JSON list / manifest without its `manifests` / `files` section, and a metadata file whose "
+                  "current_snapshot_id names none of the snapshots it lists (`snapshots: []`) -- is refused: raise, nothing deleted; "
+                  "a collection that runs worked from ALL the snapshots / entries the document carries, its current snapshot among "
+                  "them) proved over the readers' demands and the collector's checks REGENERATED from _dict_to_metadata / "
+                  "read_manifest(_list)_file / collect (Gen/GenDoc.v, Gen/GenNorm.v), tied by running every structured damage (drop / "
+                  "null / retype / empty / drop-item at every key path of the metadata JSON, of Avro and legacy-JSON lists and "
+                  "manifests) through the library and the model; "
                   "C07_fail_closed (every fault oracle: an abort raised while reachability / in-flight protection is established deletes "
                   "nothing; otherwise only unreferenced, unprotected, old files are deleted), C07_damage (missing or unparseable reachable "
                   "list / manifest aborts before the first sweep, under any additional faults), C07_transient (a run that reaches the sweeps "
-                  "read every list and manifest without an effective fault) and C07_marker_keep proved in Coq over the call-by-call collector "
-                  "model with regenerated path kernel, for both orders of the two preparatory phases (regenerated MARKERS_FIRST); the model's "
+                  "read every list and manifest without an effective fault), C07_marker_keep and C07_registered_marker_fallback_covers (the "
+                  "regenerated marker name the writer registers a file under and the regenerated fallback of the collector agree: the "
+                  "paths protected when a marker's payload cannot be read contain the registered file) proved in Coq over the call-by-call "
+                  "collector model with regenerated path kernel, for both orders of the two preparatory phases (regenerated MARKERS_FIRST); "
+                  "C07_pointer_run_safe_partial (the pointer plane CONNECTED to the collector: pointer resolved twice over metadata FILES "
+                  "identified by name and compared by content, any unpublished versions on storage, any exists / listing / stat / read "
+                  "answers -- when the second pointer read is answered honestly and is not 'no pointer', the collection aborts or runs on "
+                  "exactly the published document's manifest lists and satisfies C07_fail_closed's specification for them), "
+                  "C07_pointer_raise_aborts, C07_pointer_unreadable_never_used, C07_pointer_lost_hint_partial; the model's "
                   "fault handling is tied to the code by injecting a fault at every storage call of real collections (4 fault kinds; thorough: "
-                  "pairs) and every damage class on every reachable metadata-plane file, comparing abort phase, deleted set and call trace",
-    "level_note": "trusted: Coq kernel; translator/gen_norm.py (incl. the pinned try/except skeleton) and translator/gen_doc.py (reader "
+                  "pairs; pointer plane: every call of both resolutions incl. read_json of the metadata file, compared on the FILE worked "
+                  "from) and every damage class on every reachable metadata-plane file, comparing abort phase, deleted set and call trace",
+    "level_note": "C07_pointer_run_safe_partial carries the hypothesis `a_hint a2 <> PNone`; the statement without it "
+                  "(C07_pointer_run_safe_full) is REFUTED in Coq (C07_pointer_run_safe_refuted): a pointer that looks absent at both "
+                  "reads with a dead writer's unpublished higher version on storage makes the scan result the table and files the "
+                  "published metadata references are deleted -- for the library a lost pointer is recovered by scanning (C10's known "
+                  "finding `unpublished-surfaced`); the check reports it on the real library only when a fault makes the pointer LOOK "
+                  "absent by swallowing a raised error (seeded change C07-g), a pointer that answers 'absent' at both reads is recorded, "
+                  "not judged; hypothesis of the pointer theorems: `same` (the code's dict comparison of the two TableMetadata objects) "
+                  "distinguishes documents with different snapshot manifest lists; "
+                  "trusted: Coq kernel; translator/gen_norm.py (incl. the pinned try/except skeleton, the pinned body of "
+                  "_require_current_snapshot_listed and where collect() calls it) and translator/gen_doc.py (reader "
                   "shapes; fail closed on any use of the document outside its subset, e.g. a helper that defaults a missing section); "
                   "wf_store; Schema.__post_init__ and the int()-keyed statistics maps are external validations (parameter `ext`, "
-                  "measured per document); json.loads / fastavro decoding themselves are not modelled: faults and BYTE damage of the "
+                  "measured per document); py_eqb (Python == on decoded values) treats floats that are not integers and bytes as "
+                  "unequal to everything; json.loads / fastavro decoding themselves are not modelled: faults and BYTE damage of the "
                   "pointer plane (metadata_manager.refresh(), collect()'s re-read of the hinted file) are judged by the "
                   "implementation-only oracle (any exception, nothing deleted); a value emptied in place (a list / object / string of "
-                  "the same type, an Avro container with zero records) leaves a well-formed document that says something else "
-                  "(a manifest list with zero records is an empty snapshot): recorded, not judged -- this includes `snapshots: []` "
-                  "under a dangling current_snapshot_id; byte damage that still "
+                  "the same type, an Avro container with zero records), or an array that lost an element, leaves a well-formed "
+                  "document that says something else (a manifest list with zero records is an empty snapshot; `manifest_list: \"\"` "
+                  "is skipped by collect()): recorded, not judged -- unless the metadata document contradicts itself afterwards "
+                  "(dangling current_snapshot_id: judged); byte damage that still "
                   "decodes to DIFFERENT records (e.g. a flipped path character) is undetectable without checksums: recorded, not judged, "
                   "not compared; a short read ending exactly on an Avro block boundary likewise; a stale hint naming an older "
                   "existing version is C10's finding and only recorded; an abort raised by a sweep's own listing may follow deletions of "
-                  "true orphans (the property's second disjunct) -- stated and proved as such; damage that still parses (a JSON object "
-                  "without 'manifests' / 'files' reads as an EMPTY manifest) is modelled, recorded and not judged; local backend only",
-    "technique": "Coq proof for all fault oracles and all documents + reader shapes regenerated by the translator + exhaustive single-fault "
-                 "injection at every storage call and structured damage at every key path of every metadata-plane document (differential)",
+                  "true orphans (the property's second disjunct) -- stated and proved as such; local backend only",
+    "technique": "Coq proof for all fault oracles and all documents + reader shapes / collector checks regenerated by the translator + "
+                 "exhaustive single-fault injection at every storage call and structured damage at every key path of every "
+                 "metadata-plane document (differential)",
     "design_ref": "DESIGN.md section 5 C07",
 }
 
 KINDS = {"E": ["raise", "raisex", "bad"], "O": ["raise", "missing", "raisex", "bad"], "R": ["raise", "missing", "raisex", "bad"],
-         "L": ["raise", "raisex", "bad"], "S": ["raise", "missing", "raisex"], "D": ["raise", "raisex"]}
+         "L": ["raise", "raisex", "bad"], "S": ["raise", "missing", "raisex"], "D": ["raise", "raisex"],
+         "J": ["raise", "missing", "raisex", "bad"]}       # J = read_json of a metadata file (pointer plane only)
 DAMAGES = ["missing", "garbage", "empty", "cut-block", "cut-header", "json-empty"]
 
 
@@ -483,12 +520,13 @@ def run_table(spec: Dict[str, Any]) -> Dict[str, Any]:
                 if not wanted(desc):
                     continue
                 r = one(None, (key, dmg), "pre", what, desc)
-                if dmg == "json-empty":
-                    r["violations"] = []          # damage that still parses: recorded, not judged
-                    r["not_judged"] = True
-                elif not r["real"]["raised"] and not protection_kept(r["real"], reach, live):
+                # "json-empty" (the file now holds `{}`): a JSON object without the `manifests` / `files` section is not a list /
+                # manifest without entries -- it does not parse as a list / manifest at all: judged like every other class
+                if not r["real"]["raised"] and not protection_kept(r["real"], reach, live):
+                    gone = sorted((set(r["before"]) - set(r["after"])) & (reach | live))
                     r["violations"].append({"key": f"damage-not-detected:{dmg}:{role}", "desc": desc,
-                                            "what": f"reachable {role} {key} damaged ({dmg}) and the collection completed"})
+                                            "what": f"reachable {role} {key} damaged ({dmg}) and the collection completed with reachable / live files "
+                                                    f"missing from its keep sets, deleting {gone[:4]} ({len(gone)} reachable / live file(s) in all)"})
                 out["runs"].append(r)
                 out["stats"]["damage_runs"] += 1
         # ---- byte-level damage anywhere in the file: single-byte flips and truncations (header, block framing, EVERY record,
@@ -570,22 +608,33 @@ def run_table(spec: Dict[str, Any]) -> Dict[str, Any]:
                 r["doc"]["model_error"] = f"{type(e).__name__}: {e}"[:200]
             out["stats"]["doc_damage_runs"] = out["stats"].get("doc_damage_runs", 0) + 1
             gone = sorted((set(r["before"]) - set(r["after"])) & (reach | live))
-            legacy_section = (fmt == "json" and role != "current-metadata" and len(op["path"]) == 1
-                              and (op["op"] == "drop" or (op["op"] == "retype" and op["value"] in ("", {}))))
-            if legacy_section:
-                # the legacy JSON fallback reads a document WITHOUT its `manifests` / `files` section (or with an empty object /
-                # string there) as an EMPTY list / manifest: the interpretation already recorded for `{}` (json-empty)
-                r["violations"], r["not_judged"] = [], True
-                out["stats"]["doc_legacy_json_section_lost_reads_empty_not_judged"] = out["stats"].get("doc_legacy_json_section_lost_reads_empty_not_judged", 0) + 1
-            elif op["op"] in ("empty", "zero-records"):
+            # A legacy JSON list / manifest that LOST its `manifests` / `files` section (key dropped, null, or anything but a list
+            # there) is not a list / manifest without entries: the document no longer says what the snapshot consists of --
+            # unparseable as a list / manifest, judged like every other drop / null / retype.
+            # A value emptied in place, an array that lost an element, an Avro container without records is a well-formed
+            # document that says something else: not judged -- UNLESS the document contradicts itself afterwards: a metadata
+            # file whose current_snapshot_id names none of the snapshots it still lists (`snapshots: []`, the current snapshot
+            # gone from the list) cannot be trusted about its snapshots (commits and reads refuse it as inconsistent).
+            says_something_else = op["op"] in ("empty", "zero-records", "drop-item")
+            dangling = False
+            if role == "current-metadata" and says_something_else:
+                try:
+                    dangling = docdamage.dangling_current(json.loads(doc_damaged_bytes(open(os.path.join(root, key), "rb").read(), dict(op, doc=fmt))))
+                except Exception:  # noqa: BLE001
+                    dangling = False
+                if dangling:
+                    out["stats"]["doc_dangling_current_judged"] = out["stats"].get("doc_dangling_current_judged", 0) + 1
+            if says_something_else and not dangling:
                 r["violations"], r["not_judged"] = [], True
                 out["stats"]["doc_emptied_in_place_not_judged"] = out["stats"].get("doc_emptied_in_place_not_judged", 0) + 1
                 if gone:
                     out["stats"]["doc_emptied_in_place_deleted_reachable"] = out["stats"].get("doc_emptied_in_place_deleted_reachable", 0) + 1
             elif not r["real"]["raised"] and not protection_kept(r["real"], reach, live):
+                why = (f"its current_snapshot_id names none of the snapshots it lists after {lab} at {'/'.join(map(str, op['path']))}"
+                       if dangling else f"its key path {'/'.join(map(str, op['path']))} was damaged ({lab})")
                 r["violations"].append({"key": f"doc-damage-not-detected:{lab}:{role}:{pl}", "desc": desc,
-                                        "what": f"{role} #{ordinal} ({key}, {size}) is still well-formed {fmt.upper()} but its key path "
-                                                f"{'/'.join(map(str, op['path']))} was damaged ({lab}): the collection completed with reachable / live "
+                                        "what": f"{role} #{ordinal} ({key}, {size}) is still well-formed {fmt.upper()} but {why}: "
+                                                f"the collection completed with reachable / live "
                                                 f"files missing from its keep sets, deleting {gone[:4]} ({len(gone)} reachable / live file(s) in all)"})
             out["runs"].append(r)
 
@@ -751,22 +800,33 @@ def version_of(key: str) -> int:
     return int(re.match(r"^metadata/v(\d+)", key).group(1))
 
 
-def pointer_expr(versions: List[int], published: int, rec: Dict[str, Any]) -> str:
-    """The fault of one pointer-plane run as the answers of Model/GCPointer.v: occurrence 0 is refresh()'s resolution,
-    occurrence 1 the collector's own; a raising kind = PRaise / XRaise, an unusable result = PNone / XFalse."""
-    truth, ok = f"(PSome {published}%nat)", "(fun _ : nat => XTrue)"
-    a = {0: truth, 1: truth}
-    x = {0: ok, 1: ok}
+def pointer_expr(files: List[List[Any]], published: str, rec: Dict[str, Any]) -> str:
+    """The fault of one pointer-plane run as the answers of Model/GCPointer.v (layer 1, D := string: a file's content is
+    its own name, `same` := String.eqb -- no two metadata files of these tables hold the same metadata).  Occurrence 0 of a
+    call is refresh()'s resolution (answers a1), occurrence 1 the collector's own (a2); "*" both.  A raising kind on the
+    pointer = PRaise, an unusable result = PNone; exists: XRaise / XFalse; listing / stat / read_json: raises."""
+    from harness.lib.coqio import to_coq
+    ans = {i: {"hint": f"(PSome {to_coq(published)})", "ex": "(fun _ : string => XTrue)", "list": "false", "stat": "(fun _ : string => false)",
+               "read": "(fun _ : string => false)"} for i in (0, 1)}
     which = [0, 1] if rec["occ"] == "*" else [rec["occ"]]
+    name = rec["key"].split("/", 1)[1] if "/" in rec["key"] else rec["key"]
+    only = f"(fun n : string => String.eqb n {to_coq(name)})"
     for i in which:
         if i not in (0, 1):
             continue
         if rec["role"] == "hint":
-            a[i] = "PNone" if rec["kind"] == "bad" else "PRaise"
-        elif rec["role"] == "metadata-file":
-            x[i] = f"(fun v : nat => if Nat.eqb v {published}%nat then {'XFalse' if rec['kind'] == 'bad' else 'XRaise'} else XTrue)"
-    vs = "[" + "; ".join(f"{v}%nat" for v in versions) + "]"
-    return f"match collect_resolve {vs} {a[0]} {x[0]} {a[1]} {x[1]} with RAbort => (-1)%Z | RNoTable => (-2)%Z | RUse v => Z.of_nat v end"
+            ans[i]["hint"] = "PNone" if rec["kind"] == "bad" else "PRaise"
+        elif rec["role"] == "metadata-file" and rec["op"] == "E":
+            ans[i]["ex"] = f"(fun n : string => if String.eqb n {to_coq(name)} then {'XFalse' if rec['kind'] == 'bad' else 'XRaise'} else XTrue)"
+        elif rec["role"] == "metadata-file" and rec["op"] == "J":
+            ans[i]["read"] = only
+        elif rec["role"] == "metadata-file" and rec["op"] == "S":
+            ans[i]["stat"] = only
+        elif rec["role"] == "metadata-dir" and rec["op"] == "L" and rec["kind"] != "bad":
+            ans[i]["list"] = "true"
+    fs = "[" + "; ".join(f"mkMF {to_coq(n)} {v}%nat ({mt})%Z (Some {to_coq(n)})" for n, v, mt in files) + "]"
+    a = [f"(mkA {ans[i]['hint']} {ans[i]['ex']} {ans[i]['list']} {ans[i]['stat']} {ans[i]['read']})" for i in (0, 1)]
+    return f"render_resolve (collect_resolve String.eqb {a[0]} {a[1]} {fs})"
 
 
 def refresh_faults(spec: Dict[str, Any]) -> Dict[str, Any]:
@@ -786,8 +846,11 @@ def refresh_faults(spec: Dict[str, Any]) -> Dict[str, Any]:
         gcsim.copy_table(root, probe)
         pre = gcsim.run_collect(load_table(probe), spec["grace"], now)["pre_trace"]   # refresh() + the hint check
         hint = open(os.path.join(root, gcsim.HINT_KEY)).read().strip()
-        out["published"] = int(hint) if hint.isdigit() else version_of("metadata/" + hint)
-        out["versions"] = sorted({version_of(k) for k in gcsim.list_tree(root) if gcsim.is_pointer_plane(k) and k.startswith("metadata/v")})
+        out["published"] = f"v{hint}.metadata.json" if hint.isdigit() else hint
+        # the metadata files on storage in the order the backend lists them (the scan keeps the first among equals)
+        listed = [k.replace(os.sep, "/") for k in load_table(root).storage.list_files("metadata")]
+        out["files"] = [[k.split("/", 1)[1], version_of(k), int(round(os.path.getmtime(os.path.join(root, k)) * 1000))]
+                        for k in listed if gcsim.is_pointer_plane(k) and k.startswith("metadata/v")]
         occ: Dict[Tuple[str, str], int] = {}
         k = 0
         for (op, key, _f) in pre:
@@ -818,9 +881,9 @@ def refresh_faults(spec: Dict[str, Any]) -> Dict[str, Any]:
                     out["violations"].append({"key": f"hang:{what}", "what": f"{what}: the collection did not finish ({type(e).__name__})", "desc": {"what": what}})
                     continue
                 after = gcsim.list_tree(dst)
-                loaded = [c[1] for c in real["pre_trace"] if c[0] == "?read_json"]
-                out["records"].append({"what": what, "op": op, "role": prole, "occ": o_sel, "kind": kind, "raised": real["raised"],
-                                       "used": version_of(loaded[0]) if loaded else None})
+                loaded = [c[1] for c in real["pre_trace"] if c[0] == "J"]
+                out["records"].append({"what": what, "op": op, "key": key, "role": prole, "occ": o_sel, "kind": kind, "raised": real["raised"],
+                                       "used": loaded[0].split("/", 1)[1] if loaded else None})
                 vs = judge(spec["grace"], now, reach, live, markers0, before, after, real, "refresh" if real["raised"] else "none", what)
                 for v in vs:
                     v["desc"] = {"what": what}
@@ -899,7 +962,7 @@ def doc_correspondence(ctx, recs: List[Tuple[Dict[str, Any], Dict[str, Any]]], p
             continue
         ext = f"(fun _ _ => {'true' if m['ext'] else 'false'})"
         if m["kind"] == "metadata":
-            stage_a.append(f"render_decode {ext} {m['term']}")
+            stage_a.append(f"render_collect_decision {ext} {m['term']}")
         else:
             stage_a.append(f"content_code ({DOC_CONTENT[m['kind']]} {ext} {m['term']})")
         idx_a.append((ri, run))
@@ -918,12 +981,14 @@ def doc_correspondence(ctx, recs: List[Tuple[Dict[str, Any], Dict[str, Any]]], p
         code, strs = int(va[0]), list(va[1])
         pspec = {k: spec[k] for k in spec if k != "base"}
         if m["kind"] == "metadata":
+            # code 0: the reader refuses the document; 1: the collection runs on these lists; 2: the reader accepts it and the
+            # collector refuses it (its current_snapshot_id names none of the snapshots it lists)
             n_decode += 1
             real = m["real_decode"]
-            if [code, strs] != [real[0], list(real[1])]:
+            if [min(code, 1), strs] != [real[0], list(real[1])]:
                 bad_decode.append({"spec": pspec, "damage": run["what"], "op": run["doc"]["op"], "library": real, "model": [code, strs]})
-            if code == 0:
-                run["doc"]["expect"] = "refused"
+            if code in (0, 2):
+                run["doc"]["expect"] = "refused" if code == 0 else "refused-by-collector"
                 idx_b.append((ri, run, None))
                 continue
             expr = gcsim.gc_expr(mm["tp"], mm["grace"], mm["now_ms"], TIMEOUT_MS, [], strs, f"base{ri}")
@@ -949,7 +1014,10 @@ def doc_correspondence(ctx, recs: List[Tuple[Dict[str, Any], Dict[str, Any]]], p
         real = run["real"]
         gone = {k for k in set(run["before"]) - set(run["after"]) if not k.startswith(gcsim.INFLIGHT + "/")}
         if bi is None:
-            d = [] if real["raised"] and not gone else [f"model: the reader refuses the document (raise, nothing deleted); code: raised={real['raised']} deleted={sorted(gone)[:4]}"]
+            who = "the collector refuses the document (dangling current_snapshot_id)" if run["doc"].get("expect") == "refused-by-collector" else "the reader refuses the document"
+            d = [] if real["raised"] and not gone else [f"model: {who} (raise, nothing deleted); code: raised={real['raised']} deleted={sorted(gone)[:4]}"]
+            if not d and run["doc"].get("expect") == "refused-by-collector" and not real.get("aborted_type_ok"):
+                d = [f"model: {who} with GarbageCollectionAborted; code raised {real.get('exc_type')}"]
         else:
             model = gcsim.parse_render(vals_b[bi])
             if model["out"] in (1, 2):
@@ -990,18 +1058,20 @@ def run_campaign(ctx) -> None:
         ex.shutdown(wait=False, cancel_futures=True)
     ctx.stats["campaign_wall_s"] = round(time.time() - t0, 1)
     agg = {"tables": len(specs), "storage_calls_per_collection": [], "fault_runs": 0, "damage_runs": 0, "raised": 0, "absorbed_or_completed": 0,
-           "refresh_fault_runs": sum(r.get("runs", 0) for r in rres), "not_judged_parses_as_empty": 0}
+           "refresh_fault_runs": sum(r.get("runs", 0) for r in rres), "not_judged_still_parses_to_other_records": 0}
     for sp, r in zip(specs, rres):
         if "harness_error" in r:
             ctx.proof_problems.append("refresh-fault harness raised: " + r["harness_error"][-600:])
         for v in r["violations"]:
             ctx.violation(v["key"], v["what"], {"spec": {k: sp[k] for k in sp if k != "base"}, "campaign": "refresh", "only": v.get("desc")})
     # ---- correspondence of the pointer plane: which version the collection worked from (or that it aborted), real vs Model/GCPointer.v
+    # which metadata FILE the collection worked from (or that it aborted / found no table): every fault at every call of the two
+    # resolutions (pointer exists / read, exists of the hinted file, the scan's listing and stats, read_json of the metadata file)
     pexprs, precs = [], []
     for sp, r in zip(specs, rres):
         for rec in r.get("records", []):
-            if rec["role"] in ("hint", "metadata-file") and rec["occ"] in (0, 1, "*"):
-                pexprs.append(pointer_expr(r["versions"], r["published"], rec))
+            if rec["occ"] in (0, 1, "*"):
+                pexprs.append(pointer_expr(r["files"], r["published"], rec))
                 precs.append((sp, r, rec))
     try:
         pvals = coqbuild.coq_eval(["DS.Model.GCPointer"], pexprs, chunk=gcsim.chunk_for(len(pexprs))) if pexprs else []
@@ -1010,10 +1080,10 @@ def run_campaign(ctx) -> None:
         pvals = []
     pbad = []
     for (sp, r, rec), mv in zip(precs, pvals):
-        real_v = -1 if rec["raised"] else (rec["used"] if rec["used"] is not None else -2)
+        real_v = "!abort" if rec["raised"] else (rec["used"] if rec["used"] is not None else "!notable")
         ctx.count(1, ("pointer", sp.get("dead_writer"), rec["what"]))
         if real_v != mv:
-            pbad.append({"spec": {k: sp[k] for k in sp if k != "base"}, "fault": rec["what"], "versions": r["versions"], "published": r["published"],
+            pbad.append({"spec": {k: sp[k] for k in sp if k != "base"}, "fault": rec["what"], "files": r["files"], "published": r["published"],
                          "code_used_or_abort": real_v, "model": mv})
     ctx.correspondence("gc_pointer", len(pvals), pbad)
     stage1, recs = [], []
@@ -1030,7 +1100,7 @@ def run_campaign(ctx) -> None:
         agg["damage_runs"] += res["stats"]["damage_runs"]
         for k2 in ("byte_damage_runs", "stream_fault_runs", "still_parses_not_judged", "stream_faults_undetectable_short_read", "timeouts",
                    "doc_damage_runs", "doc_emptied_in_place_not_judged", "doc_emptied_in_place_deleted_reachable",
-                   "doc_legacy_json_section_lost_reads_empty_not_judged"):
+                   "doc_dangling_current_judged"):
             agg[k2] = agg.get(k2, 0) + res["stats"].get(k2, 0)
         agg.setdefault("records_per_list", []).append(res.get("shape", {}).get("lists"))
         agg.setdefault("records_per_manifest", []).append(res.get("shape", {}).get("manifests"))
@@ -1122,7 +1192,7 @@ def run_campaign(ctx) -> None:
             if run["damage"] is None or run.get("pointer_plane") or run.get("no_model"):
                 continue
             if run.get("not_judged"):
-                agg["not_judged_parses_as_empty"] += 1
+                agg["not_judged_still_parses_to_other_records"] += 1
             exprs.append(gcsim.gc_expr(m["tp"], m["grace"], m["now_ms"], TIMEOUT_MS, [], m["snaps"], run["store"]))
             druns.append((ri, run))
     try:
@@ -1151,7 +1221,7 @@ def run(ctx) -> None:
     logging.disable(logging.CRITICAL)
     ctx.rule = ("one evaluation = one real collection with one fault plan (a fault at one storage call: 4 kinds, or the stream failing "
                 "part-way; thorough: pairs) or one damaged reachable file (6 whole-file classes; single-byte flips and truncations at "
-                "many offsets; one structured operation -- drop / null / retype / empty -- at one key path of the document), judged by "
+                "many offsets; one structured operation -- drop / null / retype / empty / drop-item -- at one key path of the document), judged by "
                 "the independent oracle and compared with the model; distinct by (table, fault kind, call, file role, offset / "
                 "operation and key path)")
     ctx.trusted_base += [
@@ -1164,11 +1234,13 @@ def run(ctx) -> None:
     ]
     ctx.assumptions += [
         "writer-side path forms (wf_store) -- see C05",
-        "metadata_manager.refresh() is outside the collector model: faults inside it are judged by the oracle only (C10 / C14 own pointer and metadata damage)",
+        "metadata_manager.refresh() and the collector's re-check of the pointer are Model/GCPointer.v (which file is worked from); byte damage of "
+        "the metadata file is judged by the oracle only",
         "an abort raised by a sweep's own listing (failure or '../' entry) may follow deletions of true orphans: the property's second disjunct",
-        "damage that still parses as an empty JSON manifest is not judged (DESIGN.md section 7 interpretation, as for C14); the same for a "
-        "legacy JSON list / manifest whose `manifests` / `files` section is dropped or replaced by an empty object / string",
-        "a value emptied in place (same type) or an Avro container with zero records is a well-formed document saying something else: not judged",
+        "a value emptied in place (same type), an array that lost an element or an Avro container with zero records is a well-formed document "
+        "saying something else: not judged, unless the metadata document then names a current snapshot it does not list (judged)",
+        "pointer plane: `same` (the dict comparison of the two TableMetadata objects) distinguishes documents with different snapshot lists; a "
+        "pointer that answers 'absent' at both reads is a lost pointer for the library (scan result = the table): C07_pointer_run_safe_refuted",
     ]
     ctx.proofs(THEOREMS, gen_files=["GenNorm.v", "GenDoc.v"])
     ctx.allow_axioms([])
